@@ -138,11 +138,37 @@ def multi_line_family(tier):
                     ('LOCAL rewrite of line %02d' % j, 'REMOTE rewrite of line %02d' % j)
 
 
+def same_sides_family():
+    """One cell whose local and remote texts are always the same two texts, merged from every base that differs from them line by line (each line holds
+    local's value, remote's value or a third one): the same pair of side texts must be merged afresh for every base.  The cases are run one after
+    another in one process, forwards and backwards, so an answer remembered from an earlier base would show."""
+    S = U.seeds()
+    local = ['alpha = 1', 'beta = 2', 'gamma = 3']
+    remote = ['alpha = 100', 'beta = 2', 'gamma = 3']
+    cases = []
+    for a in ('alpha = 1', 'alpha = 100', 'alpha = 0'):
+        for b in ('beta = 2', 'beta = 0'):
+            for g in ('gamma = 3', 'gamma = 0'):
+                base = copy.deepcopy(S['S45'])
+                base['cells'][0]['source'] = '\n'.join([a, b, g])
+                l = copy.deepcopy(base); l['cells'][0]['source'] = '\n'.join(local)
+                r = copy.deepcopy(base); r['cells'][0]['source'] = '\n'.join(remote)
+                cases.append((base, l, r, 'same-sides:%s/%s/%s' % (a[8:], b[7:], g[8:]), ('alpha = 1', 'alpha = 100') if a == 'alpha = 0' else None))
+    return cases + cases[::-1]
+
+
 _G = {}
 
 
 def _shard(sh, ctx):
     M.install_observers()
+    if sh[0] == 'samesides':
+        _, ts = sh
+        for B, L, R, label, var in _G['samesides']:
+            out = M.run_merge(B, L, R, M.DEFAULT, ts)
+            check(ctx, B, L, R, ts, ('samesides', label + ':L', label + ':R'), out, variants=var)
+        M.drain_observations(ctx)
+        return
     if sh[0] == 'twolines':
         _, ts, lo, hi = sh
         for idx, (B, L, R, label, var1, var2) in enumerate(_G['twolines']):
@@ -218,6 +244,10 @@ def run(tier, seed):
     for ts in ('git', 'diff3', 'none'):
         for lo in range(0, n, 12):
             shards.append(('sameline', ts, lo, lo + 12))
+    _G['samesides'] = same_sides_family()
+    info['same_sides_family'] = len(_G['samesides'])
+    for ts in ('git', 'diff3', 'none'):
+        shards.append(('samesides', ts))
     _G['twolines'] = list(multi_line_family(tier))
     info['two_line_family'] = len(_G['twolines'])
     for ts in ('git', 'diff3', 'none'):
